@@ -42,7 +42,8 @@ class Obligation(object):
 
 
 class LoopSpec(object):
-    def __init__(self, invariant=None, heap_modifies=None, keep_locals=(), ghost=None, body_post=None, at_entry=None, local_types=None):
+    def __init__(self, invariant=None, heap_modifies=None, keep_locals=(), ghost=None, body_post=None, at_entry=None, local_types=None, raise_post=None):
+        self.raise_post = raise_post        # fn(engine, st, fr, ctx, exc) -> [(name, formula)]: what may be said when an iteration raises
         self.local_types = {}               # loop-assigned local name -> type of its value at the loop head
         self.body_post = body_post          # fn(engine, st, fr, ctx, events of this iteration) -> [(name, formula)]
         self.at_entry = at_entry            # fn(engine, st, fr, ctx) -> [(name, formula)] checked once at loop entry
